@@ -54,3 +54,60 @@ pub fn parser_work_reset() { PARSER_WORK.with(|c| c.set(0)); }
 pub fn parser_work_get() -> u64 { PARSER_WORK.with(|c| c.get()) }
 /// 0 disarms the limit.
 pub fn parser_work_set_limit(limit: u64) { PARSER_LIMIT.with(|l| l.set(limit)); }
+
+// ---------------------------------------------------------------------------
+// H3: VM instruction counter and native re-entry depth
+// ---------------------------------------------------------------------------
+thread_local! {
+    static VM_INSTR: Cell<u64> = const { Cell::new(0) };
+    static VM_LIMIT: Cell<u64> = const { Cell::new(0) };
+    static REENTRY: Cell<u32> = const { Cell::new(0) };
+    static REENTRY_MAX: Cell<u32> = const { Cell::new(0) };
+    static REENTRY_LIMIT: Cell<u32> = const { Cell::new(0) };
+}
+/// Called once per bytecode instruction dispatched by `BytecodeVM::step`.
+#[inline]
+pub fn vm_instr() {
+    VM_INSTR.with(|c| {
+        let v = c.get() + 1;
+        c.set(v);
+        let lim = VM_LIMIT.with(|l| l.get());
+        if lim != 0 && v > lim {
+            VM_LIMIT.with(|l| l.set(0));
+            panic!("verif: vm work limit exceeded");
+        }
+    });
+}
+/// Reset the instruction counter (the harness does this before each host-level step()).
+pub fn vm_instr_reset() { VM_INSTR.with(|c| c.set(0)); }
+pub fn vm_instr_get() -> u64 { VM_INSTR.with(|c| c.get()) }
+/// 0 disarms the limit.
+pub fn vm_instr_set_limit(limit: u64) { VM_LIMIT.with(|l| l.set(limit)); }
+
+/// RAII marker for a native (Rust-stack) re-entry into function-call machinery.
+pub struct ReentryGuard(());
+impl ReentryGuard {
+    #[inline]
+    pub fn enter() -> ReentryGuard {
+        REENTRY.with(|c| {
+            let v = c.get() + 1;
+            c.set(v);
+            REENTRY_MAX.with(|m| if v > m.get() { m.set(v) });
+            let lim = REENTRY_LIMIT.with(|l| l.get());
+            if lim != 0 && v > lim {
+                REENTRY_LIMIT.with(|l| l.set(0));
+                c.set(v - 1);
+                panic!("verif: native re-entry depth limit exceeded");
+            }
+        });
+        ReentryGuard(())
+    }
+}
+impl Drop for ReentryGuard {
+    fn drop(&mut self) {
+        REENTRY.with(|c| c.set(c.get().saturating_sub(1)));
+    }
+}
+pub fn reentry_reset() { REENTRY.with(|c| c.set(0)); REENTRY_MAX.with(|c| c.set(0)); }
+pub fn reentry_max() -> u32 { REENTRY_MAX.with(|c| c.get()) }
+pub fn reentry_set_limit(limit: u32) { REENTRY_LIMIT.with(|l| l.set(limit)); }
